@@ -72,10 +72,11 @@ def alphabet():
         ('sp_a', lambda s: s.setStoragePath(A, 's/a')),
         ('async2', async2),
         ('BND', None),
+        ('KILL', None),
     ]
 
 
-SMALL = ['rh_a1', 'rh_a2', 'ih_a1', 'rw_a0', 'nd_1', 'jk', 'jj', 'async2', 'dih_a', 'dsm_1', 'dsm_2', 'BND']
+SMALL = ['rh_a1', 'rh_a2', 'ih_a1', 'rw_a0', 'nd_1', 'jk', 'jj', 'async2', 'dih_a', 'dsm_1', 'dsm_2', 'BND', 'KILL']
 
 
 def observe(s):
@@ -138,6 +139,13 @@ def run_history(hist, ops):
             finals.append((len(_tr.ops), len(snaps) - 1))
             s = st._BobState()
             continue
+        if name == 'KILL':
+            # the process is killed (no finalize; what it wrote stays in the page cache, synced or not), the user removes the
+            # stale lock as documented and starts Bob again: the start-up recovery is part of the traced history, so a later
+            # crash (power loss) meets whatever that recovery left unsynced
+            s = restart_after_kill(st, s)
+            if observe(s) != snaps[-1]: snaps.append(observe(s))
+            continue
         ops[name](s)
         n = sum(1 for op in _tr.ops[before:] if op[0] == 'rename' and op[2].endswith('.pickle.new'))
         if n:
@@ -155,6 +163,16 @@ def run_history(hist, ops):
     except Exception:
         pass
     return trace, snaps, saves, finals, unsaved
+
+
+def restart_after_kill(st, s):
+    del s
+    try:
+        os.unlink('.bob-state.lock')
+        _tr.add('unlink', '.bob-state.lock')
+    except FileNotFoundError:
+        pass
+    return st._BobState()
 
 
 _cache = {}
@@ -254,6 +272,10 @@ def fault_runs(hist, ops):
                         # changes of that invocation are dropped: such an invocation did not complete
                         if not (before is None and _tr.fired is not None): lo = len(snaps) - 1
                         s = st._BobState()
+                    elif name == 'KILL':
+                        s = restart_after_kill(st, s)
+                        o = observe(s)
+                        if o not in snaps: snaps.append(o)
                     else:
                         ops[name](s)
                         o = observe(s)
